@@ -117,7 +117,8 @@ def main():
             if not recheck:
                 for f in ("patch.diff", "demo.py"):
                     shutil.copy(os.path.join(src, f), dst)
-            meta["verified"] = {"what_i_ran": "tools/eval_benign.py: demo on clean and patched scratch copies (both exit 0), 71-test baseline on the patched copy, "
+            keep = {k: v for k, v in meta.get("verified", {}).items() if k.startswith("related")}
+            meta["verified"] = {**keep, "what_i_ran": "tools/eval_benign.py: demo on clean and patched scratch copies (both exit 0), 71-test baseline on the patched copy, "
                                               "quick check against the patched copy via PYREPSEQ_SRC",
                                 "check": verdict, "lines": res.get("lines", [])[:3]}
             with open(os.path.join(dst, "meta.json"), "w") as f:
